@@ -111,3 +111,14 @@ package capnp
 //@     invariant implies(i == 0, sameSlice(data[:0], data0[:0]))
 //@     invariant implies(i > 0, sameSlice(data[:0], segs[i-1][len(segs[i-1]):]) && sameSlice(segs[0][:0], data0[:0]))
 //@     invariant forall(1, i, func(k int) bool { return sameSlice(segs[k][:0], segs[k-1][len(segs[k-1]):]) })
+
+// Message.Reset (reused by Decoder.ReuseBuffer): once the segment bookkeeping has been cleared, no
+// Segment object of the previous message is registered - neither the embedded first segment nor a map
+// entry - so every segment of the next message is loaded from the new arena.  PARTIAL, and a point
+// assertion rather than a postcondition: the capability-release loop that follows calls arbitrary
+// Shutdown hooks, across which nothing about the message is known without a further assumption.
+//@ func Message.Reset
+//@   props C14
+//@   partial
+//@   requires m != nil
+//@   assert before "m.Arena = arena" noseg: m.firstSeg.msg == nil && forall(0, 1<<32, func(i int) bool { return m.segs == nil || m.segs[SegmentID(i)] == nil })
